@@ -460,6 +460,6 @@ MANIFEST = dict(
          'real backup/recover/verify functions (READCHUNK 7) and compares recovered bytes with the committed prefix of the '
          'source at backup time.  The solver enumerates and certifies exhaustion of the bounded program space; there is no '
          'data generalisation (bytes flow through md5/gzip).',
-    note='programs of <= 4 steps; md5 and gzip trusted; one backup per second (test_now hook); selector mode (stated).',
+    note='programs of <= 4 steps; md5 and gzip trusted; one backup per second (test_now hook); selector mode (stated); backup_fault: one disturbance per run, up to and including the publishing rename.',
     design_ref='DESIGN.md section 4, C18',
 )
